@@ -13,26 +13,24 @@ Import ListNotations.
    [reach E cf s0 s]: s is obtained from s0 by any sequence of step / solve /
    reload / tag / enable / disable / clear_log, failing ones included. *)
 
-(* Every row ever appended is truthful.  Scope: states in which no exception
-   was raised inside add_point_to_log (ragged = false); after such an exception
-   the implementation's log columns are misaligned (known finding) and the model
-   no longer describes them. *)
-Theorem C15_rows_truthful_partial : forall (E : env) (cf : cfg (eF E)) k0 va0 s0 s,
-  init E cf k0 va0 = Ok s0 -> reach E cf s0 s -> ragged s = false ->
-  Forall (truthful E cf) (log s).
-Proof. intros E cf k0 va0 s0 s Hi Hr _. exact (rows_truthful E cf k0 va0 s0 s Hi Hr). Qed.
-Print Assumptions C15_rows_truthful_partial.
+(* Every row ever appended is truthful, over all operation sequences, failing
+   operations included (an exception while add_point_to_log evaluates the point
+   leaves the log untouched: the knobs are recorded after the evaluation). *)
+Theorem C15_rows_truthful : forall (E : env) (cf : cfg (eF E)) k0 va0 s0 s,
+  init E cf k0 va0 = Ok s0 -> reach E cf s0 s -> Forall (truthful E cf) (log s).
+Proof. exact rows_truthful. Qed.
+Print Assumptions C15_rows_truthful.
 
 (* for unit weights (x/1*1 = x, true of IEEE doubles): the user's function at
    the row's knobs IS the row's targets, and the penalty is that of the row *)
-Theorem C15_rows_truthful_unit_partial : forall (E : env) (cf : cfg (eF E)) k0 va0 s0 s,
+Theorem C15_rows_truthful_unit : forall (E : env) (cf : cfg (eF E)) k0 va0 s0 s,
   (forall x, e_mul E (e_div E x (e_one E)) (e_one E) = x) -> Forall (fun w => w = e_one E) (c_w cf) ->
-  init E cf k0 va0 = Ok s0 -> reach E cf s0 s -> ragged s = false ->
+  init E cf k0 va0 = Ok s0 -> reach E cf s0 s ->
   forall r, In r (log s) ->
     exists res, e_f E (r_knobs r) = Some res /\ r_targets r = res /\ r_tolmet r = within E cf res /\
                 r_pen r = e_pen E (merit_out E cf (r_ta r) res).
-Proof. intros E cf k0 va0 s0 s Hu Hw Hi Hr _. exact (rows_truthful_unit E cf k0 va0 s0 s Hu Hw Hi Hr). Qed.
-Print Assumptions C15_rows_truthful_unit_partial.
+Proof. exact rows_truthful_unit. Qed.
+Print Assumptions C15_rows_truthful_unit.
 
 (* reload(i) returning normally: the active flags are the row's, every knob is
    the row's value or its round trip (exactly: the values the merit function
@@ -87,14 +85,14 @@ Definition xcfg : cfg Qc :=
         [Q2Qc 2; Q2Qc 2] [Q2Qc (1 # 10); Q2Qc (1 # 10)] [1%Qc; 1%Qc] [0%N; 0%N] 3 true true.
 
 (* a constructed optimizer, a step with take_best, a reload and a failing solve:
-   a reachable, non-ragged state with 10 rows *)
+   a reachable state with 10 rows *)
 Example C15_reach_satisfiable :
   match init xenv xcfg [0%Qc] [true] with
   | Ok s0 =>
       match opt_step xenv xcfg 50%nat 2%nat true no_args BroOff s0 with
       | Ok s1 => match reload xenv xcfg 1%nat s1 with
                  | Ok s2 => match solve xenv xcfg 50%nat (Some 1%nat) true BroOff s2 with
-                            | Err ERuntime s3 => ragged s3 = false /\ length (log s3) = 10%nat
+                            | Err ERuntime s3 => length (log s3) = 10%nat
                             | _ => False
                             end
                  | _ => False
@@ -103,7 +101,7 @@ Example C15_reach_satisfiable :
       end
   | _ => False
   end.
-Proof. vm_compute. split; reflexivity. Qed.
+Proof. vm_compute. reflexivity. Qed.
 Print Assumptions C15_reach_satisfiable.
 
 Example C15_order_laws_satisfiable :
